@@ -96,6 +96,7 @@ fn mk_send(target_ix: usize, via_expr: bool, type_ix: u32, payload: u32) -> Send
         1 => { let mut p = Parameter::new(); p.name = "p1".to_string(); p.expr = "a".to_string(); sp.params = Some(vec![p]); }
         2 => { sp.name_list.push("a".to_string()); }
         3 => { sp.content = Some(CommonContent { content: None, content_expr: Some("a + 1".to_string()) }); }
+        4 => { let mut p = Parameter::new(); p.name = "p1".to_string(); p.expr = "a".to_string(); sp.params = Some(vec![p]); sp.name_list.push("a".to_string()); }
         _ => {}
     }
     sp
@@ -115,7 +116,7 @@ fn route() {
     let tix = if tix0 == 6 { 9 } else if tix0 == 7 { 12 } else { tix0 };
     let via_expr = vnd_bool(4);
     let type_ix = vnd_range(0, 2, 5);
-    let payload = vnd_conc(vnd_range(0, 3, 6), 3);
+    let payload = vnd_conc(vnd_range(0, 4, 6), 4);
     let a = vnd_i64(7);
     vnd_assume(a < i64::MAX);
     // addressed sessions must exist in this harness (failing targets: h_c12_send_errors)
@@ -153,6 +154,8 @@ fn route() {
                 1 => int_param(&e, "p1") == Some(a) && e.content.is_none(),
                 2 => int_param(&e, "a") == Some(a) && e.content.is_none(),
                 3 => e.param_values.is_none() && match &e.content { Some(Data::Integer(v)) => *v == a + 1, _ => false },
+                // namelist and <param> together: both values arrive
+                4 => int_param(&e, "p1") == Some(a) && int_param(&e, "a") == Some(a) && e.content.is_none(),
                 _ => e.param_values.is_none() && e.content.is_none(),
             };
             vnd_check(1505, data_ok);
@@ -269,9 +272,11 @@ fn delayed_schedule() {
     // the target is given literally or through targetexpr
     let via_expr = vnd_bool(4);
     let mut sp = mk_send(tix, via_expr, 1, 1);
-    sp.delay_ms = delay;
+    // the delay is the literal attribute (any value) or comes from a delayexpr (2 s)
+    let via_delayexpr = vnd_bool(5);
+    if via_delayexpr { sp.delay_ms = 0; sp.delay_expr = src("'2s'", 6); } else { sp.delay_ms = delay; }
     let ok = sp.execute(&mut dm, &fsm);
-    let negative = delay >= (1u64 << 63);
+    let negative = !via_delayexpr && delay >= (1u64 << 63);
     let illegal = negative || tix == 1;
     let pending = t.g[0].lock().unwrap().delayed_send.contains_key("sid1");
     let e1 = drain_ext(&t.g[0]);
